@@ -11,7 +11,7 @@ From Coq Require Import List Arith ZArith Bool.
 From GS Require Import C20_Heap C20_Effects.
 Import ListNotations.
 
-(* every entry point, every configuration (63840 in total), every value type, contents, size, every
+(* every entry point, every configuration (198468 in total), every value type, contents, size, every
    binding and aliasing of arguments and attributes: all buffers that exist before the call (caller
    arrays, earlier stored/returned results) have the same contents after the call *)
 Theorem C20_no_caller_write :
@@ -62,7 +62,7 @@ Print Assumptions C20_predicted_writes_empty.
 
 (* the configuration space: its size, and the enumeration used by the finite check is complete *)
 Theorem C20_config_space :
-  total_cfgs = 63840%Z
+  total_cfgs = 198468%Z
   /\ (forall e, Z.of_nat (length (all_cfgs (dims e))) = cfg_count e)
   /\ (forall e c, valid_cfg (dims e) c -> In c (all_cfgs (dims e)))
   /\ (forall e, In e entries).
